@@ -109,6 +109,12 @@ impl std::io::Write for FailFlush {
 
 /// run `text` (or the file at `file`) with scripted commands; canonical outcome string
 pub fn run_scripted(text: &str, file: Option<&str>, names: &[String], queue: &str, halt_at: Option<usize>, vars: &[(String, String)]) -> String {
+    run_scripted_with(text, file, names, queue, halt_at, vars, &[])
+}
+
+/// `real`: SDK commands (by one of their names) registered next to the scripted ones, taken from
+/// a loaded SDK context — they keep all their own spellings, do not log and do not use the queue
+pub fn run_scripted_with(text: &str, file: Option<&str>, names: &[String], queue: &str, halt_at: Option<usize>, vars: &[(String, String)], real: &[&str]) -> String {
     let halt = Arc::new(AtomicBool::new(false));
     let q: VecDeque<CommandResult> = if queue == "-" || queue.is_empty() { VecDeque::new() } else { queue.split(',').map(|t| dec_result(t).unwrap()).collect() };
     // who holds the flag: 0 = the embedder keeps a handle and raises it through that; 1 = the
@@ -121,6 +127,12 @@ pub fn run_scripted(text: &str, file: Option<&str>, names: &[String], queue: &st
     let mut context = Context::new();
     for n in names {
         context.commands.set(Box::new(Scripted { name: n.clone(), shared: shared.clone() })).unwrap();
+    }
+    if !real.is_empty() {
+        let sdk = crate::sdkenv::sdk_context();
+        for r in real {
+            context.commands.set(sdk.commands.get(r).expect("SDK command").clone_and_box()).unwrap();
+        }
     }
     for (k, v) in vars {
         context.variables.insert(k.clone(), v.clone());
@@ -150,7 +162,7 @@ pub fn run_scripted(text: &str, file: Option<&str>, names: &[String], queue: &st
             format!("ok | VARS {} | LOG {}", enc_vars(&ctx.variables), log)
         }
         Err(ScriptError::Runtime(msg, meta)) => {
-            let m = if msg.starts_with("crash#") { enc_str(&msg) } else { "runner-msg".to_string() };
+            let m = if msg.starts_with("crash#") || msg.starts_with("Exit with error code: ") { enc_str(&msg) } else { "runner-msg".to_string() };
             format!("fail {} {} | LOG {}", m, enc_meta(&meta.unwrap_or_default()), log)
         }
         Err(e) => format!("PARSEERR {}", enc_script_error(&e)),
@@ -266,7 +278,7 @@ pub fn run_dyn(specs: &[(String, Vec<String>)], queue: &str, vars: &[(String, St
                 last = Some(c);
             }
             Err(ScriptError::Runtime(msg, meta)) => {
-                let m = if msg.starts_with("crash#") { enc_str(&msg) } else { "runner-msg".to_string() };
+                let m = if msg.starts_with("crash#") || msg.starts_with("Exit with error code: ") { enc_str(&msg) } else { "runner-msg".to_string() };
                 outs.push(format!("fail {} {}", m, enc_meta(&meta.unwrap_or_default())));
                 break;
             }
